@@ -84,8 +84,19 @@ def r6(R6, cfg, F):
 
 
 def inner_agg(b):
+    """{field name: operand} of the one `Inner` header built in b; the fields of a private struct nested in it (a grouping of
+    ptr / len / capacity) are flattened in, so that the rules see the same header however it is laid out"""
     a = [s for _, _, s in b.assigns() if s['rv']['k'] == 'aggregate' and s['rv'].get('adt') == 'utils::bytes::Inner']
-    return dict(zip(a[0]['rv']['fields'], a[0]['rv']['ops'])) if len(a) == 1 else None
+    if len(a) != 1:
+        return None
+    out = {}
+    for nm, op in zip(a[0]['rv']['fields'], a[0]['rv']['ops']):
+        sub = agg_direct(b, op) if op.get('k') in ('copy', 'move') else None
+        if sub is not None and sub['rv'].get('adt', '').startswith('utils::bytes::') and sub['rv'].get('fields'):
+            out.update(dict(zip(sub['rv']['fields'], sub['rv']['ops'])))
+        else:
+            out[nm] = op
+    return out if all(k in out for k in ('count', 'ptr', 'len', 'capacity')) else None
 
 
 def names(b, op, pt=None):
@@ -320,16 +331,21 @@ def r4(R4, cfg, F, feats):
             R4.check(ok, cfg, b.path, 'utf8-by-construction', why, loc)
     if n < 4:
         R4.missing(cfg, 'SharedString construction sites (found %d)' % n)
-    db = F.body('<utils::string::SharedString as std::ops::Deref>::deref')
-    if db:
-        fu = [c for c in db.calls() if c.callee and c.callee.best == 'std::str::from_utf8_unchecked']
-        ok = len(fu) == 1 and db.origins(0) == {('call', fu[0].bb)}
-        if ok:
-            r = db.call_roots(fu[0].args[0])
-            ok = len(r) == 1 and r[0].callee.best == '<utils::bytes::SharedBytes as std::ops::Deref>::deref' and (db.access_path(r[0].args[0]) or [])[-2:] == ['bytes', '&']
-        R4.check(ok, cfg, db.path, 'unchecked-deref-reads-only-self.bytes', 'the unchecked str view must read exactly self.bytes', db.loc())
-    else:
-        R4.missing(cfg, 'SharedString::deref')
+    # wherever the module takes the unchecked str view (Deref::deref, or an accessor that deref goes through): it reads exactly self.bytes
+    nview = 0
+    for db in F.fn_bodies():
+        if 'utils::string::' not in db.path:
+            continue
+        for fu in [c for c in db.calls() if c.callee and c.callee.best == 'std::str::from_utf8_unchecked']:
+            if db.origins(fu.args[0], passthrough=common.pt_deref) == {('arg', 1)} and not db.path.startswith(('<utils::string::SharedString as', 'utils::string::SharedString::as_str')):
+                continue        # a constructor validating its parameter: judged above
+            nview += 1
+            r = db.call_roots(fu.args[0])
+            ok = len(r) == 1 and r[0].callee.best == '<utils::bytes::SharedBytes as std::ops::Deref>::deref' and (db.access_path(r[0].args[0]) or [])[-2:] == ['bytes', '&'] \
+                and (db.access_path(r[0].args[0]) or [])[:1] == ['arg1']
+            R4.check(ok, cfg, db.path, 'unchecked-deref-reads-only-self.bytes', 'the unchecked str view must read exactly self.bytes', fu.loc())
+    if nview == 0:
+        R4.missing(cfg, 'the unchecked str view of SharedString (Deref::deref)')
     if 'serde' in feats:
         for v, check in (('visit_bytes', 'std::str::from_utf8'), ('visit_byte_buf', 'std::string::String::from_utf8')):
             vb = [x for x in F.fn_bodies() if x.path.endswith('::' + v) and 'utils::string' in x.path]
@@ -365,10 +381,14 @@ def r5(R5, cfg, F):
                 why = 'calls %s' % [c.callee.best for c in cs]
                 if ok:
                     c = cs[0]
-                    pt = make_pt(r'as std::convert::AsRef<.*>>::as_ref$', r'Vec<T, A> as std::ops::Deref>::deref$')
+                    # (the view of the bytes may be taken by Deref / AsRef, or by a private accessor written in place)
+                    pt = make_pt(r'as std::convert::AsRef<.*>>::as_ref$', r'Vec<T, A> as std::ops::Deref>::deref$', r'^std::slice::from_raw_parts$', r'^std::str::from_utf8_unchecked$',
+                                 r'^utils::bytes::SharedBytes::inner$', r'NonNull::<T>::as_ref$', r'^<utils::(bytes::SharedBytes|string::SharedString) as std::ops::Deref>::deref$',
+                                 r'^utils::string::SharedString::as_str$', r'^std::vec::Vec::<T, A>::as_slice$', r'^std::string::String::as_str$',
+                                 r'^<std::string::String as std::ops::Deref>::deref$', r'Index<.*>>::index$', r'as std::borrow::Borrow<.*>>::borrow$')
                     a0 = b.origins(c.args[0], passthrough=pt)
                     a1 = b.origins(c.args[1], passthrough=pt)
-                    delegate = bool(re.search(leaf, c.callee.best + ' ' + (c.callee.self_ty or ''))) or c.callee.best.startswith('<' + adt + ' as std::cmp::Ord>::cmp')
+                    delegate = bool(re.search(leaf, c.callee.best + ' ' + (c.callee.self_ty or '') + ' ' + ' '.join(c.callee.args or []))) or c.callee.best.startswith('<' + adt + ' as std::cmp::Ord>::cmp')
                     ok = a0 == {('arg', 1)} and a1 == {('arg', 2)} and delegate
                     why = '`%s` is applied to (%s, %s); it must be the slice operation on (self, other) in that order' % (c.callee.best, sorted(a0), sorted(a1))
                     # the result is returned (possibly wrapped in Some)
